@@ -998,10 +998,12 @@ def rule_one_deadline(ctx, rep, rid: str) -> None:
                 inherits = True
         if var is not None:
             for n in f.own_nodes():
-                if isinstance(n, ast.Assign) and any(norm(tg) == f"{var}.start_time" for tg in n.targets) and "start_time" in norm(n.value):
-                    from ..util import single_assignments, subst
+                from ..util import single_assignments, subst
 
-                    env_ = single_assignments(f)
+                env_ = single_assignments(f)
+                # the value may be a local that holds the running interpreter's clock:
+                # `started = outer.start_time if outer is not None else time.monotonic()`
+                if isinstance(n, ast.Assign) and any(norm(tg) == f"{var}.start_time" for tg in n.targets) and "start_time" in norm(subst(n.value, env_)):
                     if not guards_of(n, f.node) or all("start_time" in norm(subst(g, env_)) or "_current_vm" in norm(subst(g, env_)) for g, _ in guards_of(n, f.node)):
                         inherits = True
         if not inherits:
